@@ -93,52 +93,65 @@ theorem specRest_passEnd (a : A) (onTime : Bool) : SpecRest a (a.step (.passEnd 
 
 `ReachR`: the main context takes a step only when no sender is inside a call (`Quiet`); the interrupt handler (sender 0) and
 the handler nested in it (sender 1) step freely; there is no thread sender.  Every state of an execution of the runner on
-a history without thread items that has not been cut for lack of fuel is of this kind (`reachIsr_good`). -/
-inductive ReachR : S → Prop
-  | init (d : Nat) (kinds : List Kind) (budgets : List Nat) (h1 : 1 ≤ d) (h32 : d ≤ 32) : ReachR (initWith d kinds budgets)
-  | mainPlain {s : S} : ReachR s → Quiet s → ReachR (mainPlain s)
-  | mainAtomic {s : S} : ReachR s → Quiet s → ReachR (mainAtomic s)
-  | enterMain {s : S} (c : MCall) : ReachR s → Quiet s → s.mpc = .idle → ReachR (enterMain c s)
-  | senderPlain {s : S} (i : Nat) : i < 2 → ReachR s → ReachR (senderPlain i s)
-  | senderAtomic {s : S} (i : Nat) : i < 2 → ReachR s → ReachR (senderAtomic i s)
-  | enterSender {s : S} (i : Nat) (c : ICall) : i < 2 → ReachR s → s.ipc i = .idle → ReachR (enterSender i c s)
-  | tok {s : S} (t : Tok) : ReachR s → ReachR (tok t s)
-  | nops {s : S} (k : Nat) : ReachR s → ReachR { s with nops := k }
-  | newItem {s : S} : ReachR s → ReachR { s with trace := [], fired := 0 }
-  | noYields {s : S} : ReachR s → ReachR { s with budget := fun _ => 0 }
+a history without thread items that has not been cut for lack of fuel is of this kind (`good_runHistory`).  `n` is the
+number of fibres: calls only name fibres `< n`. -/
+def MCallOk (n : Nat) : MCall → Prop
+  | .run f | .kill f => f < n
+  | .next _ => True
 
-theorem reachR_reach {s : S} (h : ReachR s) : Reach s := by
+def ICallOk (n : Nat) : ICall → Prop
+  | .runAtomic f => f < n
+  | .eventSend _ => True
+
+/-- the interrupt and the handlers nested in it only name fibres that exist -/
+def IsrOk (n : Nat) (e : Isr) : Prop := ICallOk n e.call ∧ ∀ x ∈ e.nested, ICallOk n x.2
+
+inductive ReachR (n : Nat) : S → Prop
+  | init (d : Nat) (kinds : List Kind) (budgets : List Nat) (h1 : 1 ≤ d) (h32 : d ≤ 32) (hn : n = kinds.length + 1) :
+      ReachR n (initWith d kinds budgets)
+  | mainPlain {s : S} : ReachR n s → Quiet s → ReachR n (mainPlain s)
+  | mainAtomic {s : S} : ReachR n s → Quiet s → ReachR n (mainAtomic s)
+  | enterMain {s : S} (c : MCall) : ReachR n s → Quiet s → s.mpc = .idle → MCallOk n c → ReachR n (enterMain c s)
+  | senderPlain {s : S} (i : Nat) : i < 2 → ReachR n s → ReachR n (senderPlain i s)
+  | senderAtomic {s : S} (i : Nat) : i < 2 → ReachR n s → ReachR n (senderAtomic i s)
+  | enterSender {s : S} (i : Nat) (c : ICall) : i < 2 → ReachR n s → s.ipc i = .idle → ICallOk n c → ReachR n (enterSender i c s)
+  | tok {s : S} (t : Tok) : ReachR n s → ReachR n (tok t s)
+  | nops {s : S} (k : Nat) : ReachR n s → ReachR n { s with nops := k }
+  | newItem {s : S} : ReachR n s → ReachR n { s with trace := [], fired := 0 }
+  | noYields {s : S} : ReachR n s → ReachR n { s with budget := fun _ => 0 }
+
+theorem reachR_reach {n : Nat} {s : S} (h : ReachR n s) : Reach s := by
   induction h with
-  | init d kinds budgets h1 h32 => exact Reach.init d kinds budgets h1 h32
+  | init d kinds budgets h1 h32 _ => exact Reach.init d kinds budgets h1 h32
   | mainPlain _ _ ih => exact Reach.mainPlain ih
   | mainAtomic _ _ ih => exact Reach.mainAtomic ih
-  | enterMain c _ _ hidle ih => exact Reach.enterMain c ih hidle
+  | enterMain c _ _ hidle _ ih => exact Reach.enterMain c ih hidle
   | senderPlain i hi _ ih => exact Reach.senderPlain i (by omega) ih
   | senderAtomic i hi _ ih => exact Reach.senderAtomic i (by omega) ih
-  | enterSender i c hi _ hidle ih => exact Reach.enterSender i c (by omega) ih hidle
+  | enterSender i c hi _ hidle _ ih => exact Reach.enterSender i c (by omega) ih hidle
   | tok t _ ih => exact Reach.tok t ih
   | nops k _ ih => exact Reach.nops k ih
   | newItem _ ih => exact Reach.newItem ih
   | noYields _ ih => exact Reach.noYields ih
 
 /-- cut for lack of fuel, or a run-to-completion state in which the senders outside `I` are between calls -/
-def Good (I : List Nat) (s : S) : Prop := s.hung = true ∨ (ReachR s ∧ ∀ j, j < 3 → j ∉ I → s.ipc j = .idle)
+def Good (n : Nat) (I : List Nat) (s : S) : Prop := s.hung = true ∨ (ReachR n s ∧ ∀ j, j < 3 → j ∉ I → s.ipc j = .idle)
 
-theorem good_senderPlain {I : List Nat} {s : S} (i : Nat) (hi : i < 2) (hI : i ∈ I) (h : Good I s) : Good I (senderPlain i s) := by
+theorem good_senderPlain {n : Nat} {I : List Nat} {s : S} (i : Nat) (hi : i < 2) (hI : i ∈ I) (h : Good n I s) : Good n I (senderPlain i s) := by
   rcases h with h | ⟨hr, hq⟩
   · exact Or.inl (by rw [senderPlain_hung]; exact h)
   · exact Or.inr ⟨ReachR.senderPlain i hi hr, fun j hj hjI => by
       rw [senderPlain_ipc_other i j s (fun e => hjI (e ▸ hI))]; exact hq j hj hjI⟩
 
-theorem good_senderAtomic {I : List Nat} {s : S} (i : Nat) (hi : i < 2) (hI : i ∈ I) (h : Good I s) : Good I (senderAtomic i s) := by
+theorem good_senderAtomic {n : Nat} {I : List Nat} {s : S} (i : Nat) (hi : i < 2) (hI : i ∈ I) (h : Good n I s) : Good n I (senderAtomic i s) := by
   rcases h with h | ⟨hr, hq⟩
   · exact Or.inl (by rw [senderAtomic_hung]; exact h)
   · exact Or.inr ⟨ReachR.senderAtomic i hi hr, fun j hj hjI => by
       rw [senderAtomic_ipc_other i j s (fun e => hjI (e ▸ hI))]; exact hq j hj hjI⟩
 
-theorem good_runSender {gap : Point → S → S} {I : List Nat} (i : Nat) (hi : i < 2) (c : ICall)
-    (hg : ∀ p s, Good (i :: I) s → Good (i :: I) (gap p s)) :
-    ∀ (fuel k : Nat) (s : S), Good (i :: I) s → Good I (runSender gap i c fuel k s)
+theorem good_runSender {n : Nat} {gap : Point → S → S} {I : List Nat} (i : Nat) (hi : i < 2) (c : ICall)
+    (hg : ∀ p s, Good n (i :: I) s → Good n (i :: I) (gap p s)) :
+    ∀ (fuel k : Nat) (s : S), Good n (i :: I) s → Good n I (runSender gap i c fuel k s)
   | 0, _, _, _ => Or.inl rfl
   | fuel + 1, k, s, h => by
     unfold runSender
@@ -155,54 +168,110 @@ theorem good_runSender {gap : Point → S → S} {I : List Nat} (i : Nat) (hi : 
     · exact good_runSender i hi c hg fuel (k + 1) _
         (hg _ _ (good_senderAtomic i hi List.mem_cons_self (hg _ _ h1)))
 
-theorem good_callSender {gap : Point → S → S} {I : List Nat} (i : Nat) (hi : i < 2) (c : ICall)
-    (hg : ∀ p s, Good (i :: I) s → Good (i :: I) (gap p s)) {s : S} (h : Good I s) : Good I (callSender gap i c s) := by
+theorem good_callSender {n : Nat} {gap : Point → S → S} {I : List Nat} (i : Nat) (hi : i < 2) (c : ICall) (hc : ICallOk n c)
+    (hg : ∀ p s, Good n (i :: I) s → Good n (i :: I) (gap p s)) {s : S} (h : Good n I s) : Good n I (callSender gap i c s) := by
   unfold callSender
   split
   · rename_i hidle
     refine good_runSender i hi c hg _ _ _ ?_
     rcases h with h | ⟨hr, hq⟩
     · exact Or.inl h
-    · refine Or.inr ⟨ReachR.enterSender i c hi hr hidle, fun j hj hjI => ?_⟩
+    · refine Or.inr ⟨ReachR.enterSender i c hi hr hidle hc, fun j hj hjI => ?_⟩
       have hji : j ≠ i := fun e => hjI (e ▸ List.mem_cons_self)
       show upd s.ipc i _ j = _
       rw [upd_other _ _ _ _ hji]
       exact hq j hj (fun hm => hjI (List.mem_cons_of_mem _ hm))
   · exact Or.inl rfl
 
-theorem good_foldl {α : Type} {I : List Nat} (f : S → α → S) (hf : ∀ s a, Good I s → Good I (f s a)) :
-    ∀ (l : List α) (s : S), Good I s → Good I (l.foldl f s)
-  | [], _, h => h
-  | a :: l, s, h => good_foldl f hf l (f s a) (hf s a h)
+theorem good_foldl {n : Nat} {α : Type} {I : List Nat} (f : S → α → S) (l : List α)
+    (hf : ∀ s a, a ∈ l → Good n I s → Good n I (f s a)) : ∀ (s : S), Good n I s → Good n I (l.foldl f s) := by
+  induction l with
+  | nil => exact fun _ h => h
+  | cons a l ih =>
+    intro s h
+    exact ih (fun s b hb hs => hf s b (List.mem_cons_of_mem _ hb) hs) _ (hf s a List.mem_cons_self h)
 
-theorem good_runIsr {s : S} (h : Good [] s) (e : Isr) : Good [] (runIsr s e) :=
-  good_callSender 0 (by omega) e.call
-    (fun _ _ h => good_foldl _ (fun _ e hs => good_callSender 1 (by omega) e.2 (fun _ _ h => h) hs) _ _ h) h
+theorem good_runIsr {n : Nat} {s : S} (h : Good n [] s) (e : Isr) (he : IsrOk n e) : Good n [] (runIsr s e) :=
+  good_callSender 0 (by omega) e.call he.1
+    (fun _ _ h => good_foldl _ _ (fun _ x hx hs =>
+      good_callSender 1 (by omega) x.2 (he.2 x (List.mem_filter.mp hx).1) (fun _ _ h => h) hs) _ h) h
 
-theorem good_main {s s' : S} (h : Good [] s) (hh : s'.hung = s.hung) (hstep : ReachR s → Quiet s → ReachR s') (hi : s'.ipc = s.ipc) :
-    Good [] s' := by
+theorem good_main {n : Nat} {s s' : S} (h : Good n [] s) (hh : s'.hung = s.hung) (hstep : ReachR n s → Quiet s → ReachR n s')
+    (hi : s'.ipc = s.ipc) : Good n [] s' := by
   rcases h with h | ⟨hr, hq⟩
   · exact Or.inl (hh ▸ h)
   · exact Or.inr ⟨hstep hr (fun i hi' => hq i hi' List.not_mem_nil), fun j hj hjI => by rw [hi]; exact hq j hj hjI⟩
 
-/-- **every state of an interrupt-only execution is cut for lack of fuel or a `ReachR` state with all senders between calls** -/
-theorem reachIsr_good {s : S} (h : ReachIsr s) : Good [] s := by
-  induction h with
-  | init d kinds budgets h1 h32 => exact Or.inr ⟨ReachR.init d kinds budgets h1 h32, fun _ _ _ => rfl⟩
-  | mainPlain _ ih => exact good_main ih (mainPlain_hung _) (fun hr hq => ReachR.mainPlain hr hq) (mainPlain_ipc _)
-  | mainAtomic _ ih => exact good_main ih (mainAtomic_hung _) (fun hr hq => ReachR.mainAtomic hr hq) (mainAtomic_ipc _)
-  | enterMain c _ hidle ih => exact good_main ih rfl (fun hr hq => ReachR.enterMain c hr hq hidle) rfl
-  | isr e _ ih => exact good_runIsr ih e
-  | tok t _ ih => exact good_main ih rfl (fun hr _ => ReachR.tok t hr) rfl
-  | hung _ ih => exact Or.inl rfl
-  | nops k _ ih => exact good_main ih rfl (fun hr _ => ReachR.nops k hr) rfl
-  | newItem _ ih => exact good_main ih rfl (fun hr _ => ReachR.newItem hr) rfl
-  | noYields _ ih => exact good_main ih rfl (fun hr _ => ReachR.noYields hr) rfl
+/-! ### the runner on histories without thread senders whose calls only name existing fibres -/
 
-theorem reachR_of_reachIsr {s : S} (h : ReachIsr s) (hh : s.hung = false) : ReachR s ∧ Quiet s := by
-  rcases reachIsr_good h with e | ⟨hr, hq⟩
-  · rw [hh] at e; cases e
-  · exact ⟨hr, fun i hi => hq i hi List.not_mem_nil⟩
+def ScriptOk (n : Nat) (script : Script) : Prop := ∀ x ∈ script, IsrOk n x.2
+
+/-- no thread sender, and every fibre named exists (`n` = number of fibres) -/
+def ItemOk (n : Nat) : Item → Prop
+  | .main m => MCallOk n m.call ∧ ScriptOk n m.script
+  | .isr e => IsrOk n e
+  | .thread _ _ => False
+  | .quiesce => True
+
+theorem good_isrGap {n : Nat} (script : Script) (hs : ScriptOk n script) (p : Point) {s : S} (h : Good n [] s) :
+    Good n [] (isrGap script p s) :=
+  good_foldl _ _ (fun _ x hx hg => good_runIsr hg x.2 (hs x (List.mem_filter.mp hx).1)) _ h
+
+theorem good_runMain {n : Nat} {gap : Point → S → S} (hg : ∀ p s, Good n [] s → Good n [] (gap p s)) (c : MCall) :
+    ∀ (fuel k : Nat) (s : S), Good n [] s → Good n [] (runMain gap c fuel k s)
+  | 0, _, _, _ => Or.inl rfl
+  | fuel + 1, k, s, h => by
+    unfold runMain
+    simp only
+    have h1 : Good n [] (mainPlain s) := good_main h (mainPlain_hung _) (fun hr hq => ReachR.mainPlain hr hq) (mainPlain_ipc _)
+    split
+    · exact good_main (s := { mainPlain s with nops := k }) (good_main h1 rfl (fun hr _ => ReachR.nops k hr) rfl) rfl
+        (fun hr _ => ReachR.tok _ hr) rfl
+    · exact good_runMain hg c fuel (k + 1) _
+        (hg _ _ (good_main (hg _ _ h1) (mainAtomic_hung _) (fun hr hq => ReachR.mainAtomic hr hq) (mainAtomic_ipc _)))
+
+theorem good_callMain {n : Nat} {gap : Point → S → S} (hg : ∀ p s, Good n [] s → Good n [] (gap p s)) (c : MCall)
+    (hc : MCallOk n c) {s : S} (h : Good n [] s) : Good n [] (callMain gap c s) := by
+  unfold callMain
+  split
+  · rename_i hidle
+    exact good_runMain hg c _ _ _ (good_main h rfl (fun hr hq => ReachR.enterMain c hr hq hidle hc) rfl)
+  · exact Or.inl rfl
+
+theorem good_quiesceLoop {n : Nat} : ∀ (m : Nat) (s : S), Good n [] s → Good n [] (quiesceLoop m s)
+  | 0, _, h => h
+  | m + 1, s, h => by
+    unfold quiesceLoop
+    simp only
+    split
+    · exact good_quiesceLoop m _ (good_callMain (fun _ _ h => h) (.next s.k.now) trivial h)
+    · exact good_callMain (fun _ _ h => h) (.next s.k.now) trivial h
+
+theorem good_runItem {n : Nat} {s : S} (h : Good n [] s) (it : Item) (hi : ItemOk n it) : Good n [] (runItem s it) := by
+  unfold runItem
+  have h0 : Good n [] { s with trace := [], fired := 0 } := good_main h rfl (fun hr _ => ReachR.newItem hr) rfl
+  cases it with
+  | main m => exact good_callMain (fun p _ h => good_isrGap m.script hi.2 p h) m.call hi.1 h0
+  | isr e => exact good_runIsr h0 e hi
+  | thread c script => exact False.elim hi
+  | quiesce =>
+    exact good_quiesceLoop 64 _ (good_main (s := { s with trace := [], fired := 0 }) h0 rfl (fun hr _ => ReachR.noYields hr) rfl)
+
+/-- **every state the runner reaches on a history without thread senders (whose calls name existing fibres) is cut for
+    lack of fuel, or a `ReachR` state with all senders between calls** -/
+theorem good_runHistory (d : Nat) (kinds : List Kind) (budgets : List Nat) (h1 : 1 ≤ d) (h32 : d ≤ 32) (h : List Item)
+    (hok : ∀ it ∈ h, ItemOk (kinds.length + 1) it) :
+    Good (kinds.length + 1) [] (runHistory (initWith d kinds budgets) h) := by
+  unfold runHistory
+  have : ∀ (l : List Item) (s : S), Good (kinds.length + 1) [] s → (∀ it ∈ l, ItemOk (kinds.length + 1) it) →
+      Good (kinds.length + 1) [] (l.foldl runItem s) := by
+    intro l
+    induction l with
+    | nil => intro s hs _; exact hs
+    | cons it l ih =>
+      intro s hs hl
+      exact ih _ (good_runItem hs it (hl it List.mem_cons_self)) (fun x hx => hl x (List.mem_cons_of_mem _ hx))
+  exact this h _ (Or.inr ⟨ReachR.init d kinds budgets h1 h32 rfl, fun _ _ _ => rfl⟩) hok
 
 /-! ## which observations each step makes -/
 
@@ -370,16 +439,16 @@ theorem emits_senderPlain (i : Nat) (s : S) : Emits s.a (senderPlain i s).a := b
 
 /-- every step of a run-to-completion execution makes only observations that are not about thread senders -/
 theorem reachR_emits_inv (P : A → Prop) (hinit : ∀ nf, 1 ≤ nf → P { nf := nf })
-    (hstep : ∀ a o, NoThread o → P a → P (a.step o)) {s : S} (hr : ReachR s) : P s.a := by
+    (hstep : ∀ a o, NoThread o → P a → P (a.step o)) {n : Nat} {s : S} (hr : ReachR n s) : P s.a := by
   have lift : ∀ a a', Emits a a' → P a → P a' := fun a a' he hp => EmitsP.lift hstep he hp
   induction hr with
-  | init d kinds budgets h1 h32 => exact hinit _ (by omega)
+  | init d kinds budgets h1 h32 _ => exact hinit _ (by omega)
   | mainPlain _ _ ih => exact lift _ _ (emits_mainPlain _) ih
   | mainAtomic _ _ ih => exact lift _ _ (emits_mainAtomic _) ih
-  | enterMain c _ _ hidle ih => exact ih
+  | enterMain c _ _ hidle _ ih => exact ih
   | senderPlain i hi _ ih => exact lift _ _ (emits_senderPlain i _) ih
   | senderAtomic i hi _ ih => exact lift _ _ (emits_senderAtomic i _) ih
-  | enterSender i c hi _ hidle ih => exact ih
+  | enterSender i c hi _ hidle _ ih => exact ih
   | tok t _ ih => exact ih
   | nops k _ ih => exact ih
   | newItem _ ih => exact ih
@@ -455,7 +524,7 @@ theorem monB_step {a : A} (o : Obs) (hn : NoThread o) (h : MonB a) : MonB (a.ste
   | bodyReturned y => exact ⟨h.thr, h.dist, h.nfpos, h.hdl, h.sub⟩
   | passEnd onTime => exact monB_of_rest h (specRest_passEnd a onTime) (owedFids_neutral a (.passEnd onTime) trivial)
 
-theorem reachR_monB {s : S} (hr : ReachR s) : MonB s.a :=
+theorem reachR_monB {n : Nat} {s : S} (hr : ReachR n s) : MonB s.a :=
   reachR_emits_inv MonB (fun _ h => ⟨rfl, rfl, h, rfl, fun _ hf => absurd hf List.not_mem_nil⟩)
     (fun _ o hn h => monB_step o hn h) hr
 
